@@ -360,7 +360,11 @@ func parseMultilayerExtension(r *bits.EBSPReader) (*MultilayerExtension, error) 
 	if ext.InferScalingListFlag {
 		ext.ScalingListRefLayerId = uint8(r.Read(6))
 	}
+	// value shall be in the range of 0 to vps_max_layers_minus1 (at most 62), inclusive
 	ext.NumRefLocOffsets = r.ReadExpGolomb()
+	if ext.NumRefLocOffsets > 64 {
+		return nil, fmt.Errorf("num_ref_loc_offsets %d > 64", ext.NumRefLocOffsets)
+	}
 	ext.RefLocOffsets = make(map[uint8]RefLocOffset, int(ext.NumRefLocOffsets))
 	for i := uint(0); i < ext.NumRefLocOffsets; i++ {
 		ext.RefLocOffsetLayerIds = append(ext.RefLocOffsetLayerIds, uint8(r.Read(6)))
